@@ -36,6 +36,7 @@ type world struct {
 	listeners map[string]*Listener
 	conns     []*Conn
 	dials     map[string]int
+	skew      time.Duration // how far the harness has advanced the network's clock
 }
 
 var w *world
@@ -58,6 +59,7 @@ type Conn struct {
 	inEOF         bool   // the other end closed: EOF after draining
 	broken        bool   // the connection was cut/reset: error after draining
 	closed        bool   // this end was closed locally
+	wdl           time.Time
 	peer          *Conn
 	// capture
 	Written   []byte // everything this end wrote (wire log of the direction this->peer)
@@ -188,6 +190,9 @@ func (c *Conn) Write(b []byte) (int, error) {
 	if c.writeErr != nil {
 		return 0, &net.OpError{Op: "write", Net: "tcp", Err: c.writeErr}
 	}
+	if !c.wdl.IsZero() && Now().After(c.wdl) {
+		return 0, &net.OpError{Op: "write", Net: "tcp", Err: timeoutError{}}
+	}
 	if c.peer.closed {
 		return 0, &net.OpError{Op: "write", Net: "tcp", Err: errPipe}
 	}
@@ -237,14 +242,39 @@ func (c *Conn) LocalAddr() net.Addr { return c.local }
 //go:norace
 func (c *Conn) RemoteAddr() net.Addr { return c.remote }
 
+// Deadlines: only the write deadline is enforced, against a clock the harness can advance
+// (AdvanceClock); a write attempted after its connection's write deadline fails with a timeout.
+// Read deadlines are recorded and ignored (sessions in the scenarios have no session age).
+
 //go:norace
-func (c *Conn) SetDeadline(t time.Time) error { return nil }
+func (c *Conn) SetDeadline(t time.Time) error { c.wdl = t; return nil }
 
 //go:norace
 func (c *Conn) SetReadDeadline(t time.Time) error { return nil }
 
 //go:norace
-func (c *Conn) SetWriteDeadline(t time.Time) error { return nil }
+func (c *Conn) SetWriteDeadline(t time.Time) error { c.wdl = t; return nil }
+
+// WriteDeadline returns the write deadline currently armed on this end (zero: none).
+//
+//go:norace
+func (c *Conn) WriteDeadline() time.Time { return c.wdl }
+
+type timeoutError struct{}
+
+func (timeoutError) Error() string   { return "i/o timeout" }
+func (timeoutError) Timeout() bool   { return true }
+func (timeoutError) Temporary() bool { return true }
+
+// AdvanceClock moves the network's clock forward (this execution only).
+//
+//go:norace
+func AdvanceClock(d time.Duration) { w.skew += d }
+
+// Now is the network's clock: real time plus what the harness has advanced.
+//
+//go:norace
+func Now() time.Time { return time.Now().Add(w.skew) }
 
 // Listener is an in-memory listener registered under its address.
 type Listener struct {
